@@ -34,6 +34,15 @@ def skip (p : Nat → Bool) (toks : List Nat) (pos : Nat) : Nat := many p toks (
 def whitespace (cc : CC) (toks : List Nat) (pos : Nat) : Option Nat := some (skip cc.isWs toks pos)
 def inlineWhitespace (cc : CC) (toks : List Nat) (pos : Nat) : Option Nat := some (skip cc.isInlineWs toks pos)
 
+/-- `whitespace().at_least(lo).at_most(hi)` (the returned `Repeated` counts CHARACTERS): at most `hi` of the run are taken,
+    and the parser fails when fewer than `lo` are there -/
+def boundedRun (p : Nat → Bool) (lo hi : Nat) (toks : List Nat) (pos : Nat) : Option Nat :=
+  let e := many p toks hi pos
+  if lo ≤ e - pos then some e else none
+
+def whitespaceB (cc : CC) (lo hi : Nat) := boundedRun cc.isWs lo hi
+def inlineWhitespaceB (cc : CC) (lo hi : Nat) := boundedRun cc.isInlineWs lo hi
+
 /-- `text::digits(r)`: one or more radix-`r` digits -/
 def digits (cc : CC) (r : Nat) (toks : List Nat) (pos : Nat) : Option Nat :=
   match toks[pos]? with
